@@ -40,6 +40,18 @@ namespace GeographicLib {
       if (!(std::fabs(lat) <= 90)) throw GeographicErr("bad latitude");
       return lat;
     }
+    // X4 (helper): the same, the comparison hidden in a small predicate
+    static bool InRange(real x, real lo, real hi) { return x >= lo && x <= hi; }
+    static real NanThrowsViaHelper(real lon) {
+      if (!InRange(lon, -180, 180)) throw GeographicErr("bad longitude");
+      return lon;
+    }
+    // W1: an output written on one returning path only
+    static void HalfWritten(int code, int& zone, bool& northp) {
+      if (code > 0) { zone = code; northp = true; }
+      else if (code < 0) { zone = -code; }
+      else { zone = 0; northp = false; }
+    }
     // X6: loop without a cap
     static real Spin(real x) {
       while (x > 1) x = std::sqrt(x) + 1;
